@@ -79,7 +79,7 @@ def img_tokens(a):
 class C17(Prop):
     id = "C17"
     anchored = ["src/pewlib/io/imzml.py"]
-    cases = {"quick": 500, "thorough": 15000}
+    cases = {"quick": 1500, "thorough": 20000}
     rule = ("documents of the layout predicate `Pew.FastParse.Layout` (decided by the driver for every case): 1..7 spectra in any "
             "order incl. repeated positions and positions/offsets with many digits, TIC absent or written as integer/decimal/"
             "exponent/signed text, image size present or absent, 1..3 scanSettings, extra param groups, extra cvParam/userParam/"
